@@ -82,6 +82,7 @@ def group_name_stored_as_given(prog):
         if rhs is None:
             return False
         r = Renderer(f).render(rhs)
+        r = re.sub(r'^std::move\((.*)\)$', r'\1', r)       # moving the argument into the member stores it as given
         if not re.match(r'^arg\d+$', r) and r != 'arg0._name':
             return False
     for f in prog.repo_funcs():
@@ -93,6 +94,28 @@ def group_name_stored_as_given(prog):
                     if Renderer(f).render(a) == 'this._name':
                         return False
     return True
+
+
+def _unread_validation_loop(f, site):
+    """a loop before `site` whose body only tests and throws (a validation loop) and that is not a counted `for (i = 0; i < n; ++i)`"""
+    from loops import normal_for
+    g = f.events()
+    sv = g.vertex_of.get(site)
+    for lp in f.all_nodes({'ForStmt', 'WhileStmt', 'DoStmt', 'CXXForRangeStmt'}):
+        if site in f.descendants(lp['id']):
+            continue
+        if lp['k'] == 'ForStmt':
+            nf = normal_for(f, lp['id'])
+            if nf is not None and nf.get('start_cv') == '0' and nf.get('op') == '<':
+                continue
+        throws = [x for x in f.descendants(lp['id']) if f.nodes[x]['k'] == 'CXXThrowExpr']
+        effects = [x for x in f.descendants(lp['id']) if f.nodes[x]['k'] == 'CXXMemberCallExpr' and not f.nodes[x]['callee'].get('const') and
+                   str(f.nodes[x]['callee'].get('classq', '')).startswith('std::vector')]
+        if throws and not effects:
+            inside = [g.vertex_of[x] for x in f.descendants(lp['id']) if g.vertex_of.get(x) is not None and f.nodes[x]['k'] != 'CXXThrowExpr' and x not in set(y for t_ in throws for y in f.descendants(t_))]
+            if sv is not None and inside and any(sv in g.reach([v_]) for v_ in inside[:3]) and not any(v_ in g.reach([sv]) for v_ in inside[:3]):
+                return True
+    return False
 
 
 def _index_from_search(f, i):
@@ -211,6 +234,12 @@ def run(prog, tier):
                 # range has been demonstrated either (A16) - the index may come from a search written in a way the lemma does not read
                 res.undecided('validate-then-mutate', inst + ': ' + key, f.loc(n['id']), 'the positional access %s(%s) comes after the object was modified and its position is not validated by a form the rule reads; '
                               'no out-of-range position is demonstrated [shape not read by the rule]' % (cq.split('::')[-1], R.render(f.call_args(n)[0])[:60]), function=f.sig, expr=key)
+                problems += 1
+                continue
+            if left == {'std::out_of_range'} and re.sub(r'_nonConst$', '', n['callee']['name']) in ('frame', 'point', 'subframe', 'channel', 'group', 'parameter') and _unread_validation_loop(f, n['id']):
+                # the function validates in a loop the forall-guard lemma does not read (iterators, range-for, while): whether that loop covers this access is not decided
+                res.undecided('validate-then-mutate', inst + ': ' + key, f.loc(n['id']), 'the positional access %s comes after the object was modified; a validation loop precedes it, written in a form the '
+                              'forall-guard lemma does not read (iterator / range-for / while) [shape not read by the rule]' % cq.split('::')[-1], function=f.sig, expr=key)
                 problems += 1
                 continue
             if cq in UPDATERS:
